@@ -32,12 +32,16 @@ NoPanic(o) == ~o.panic
 VarsJSONValid(o) == /\ o.norm.ok => o.norm.valid
                     /\ o.sub.ok => o.sub.valid
                     /\ o.hastw /\ o.twsub.ok => o.twsub.valid
-Extracted(o, d) == Seen(o.norm) => VEq(Canon(o.norm.val, o.c.ty), d)
-Forwarded(o, d) == Seen(o.sub) => VEq(Canon(o.sub.val, o.c.ty), d)
-TwinForwarded(o) == o.hastw /\ Seen(o.twsub) => VEq(Canon(o.twsub.val, o.c.ty), Den(o.c.tw, o.c.ty, <<>>, TRUE))
-FormsAgree(o) == o.hastw /\ Seen(o.sub) /\ Seen(o.twsub) => VEq(Canon(o.sub.val, o.c.ty), Canon(o.twsub.val, o.c.ty))
-AbsentStaysAbsent(o, d) == d.t = "x" => /\ Seen(o.norm) => o.norm.val.t = "x" /\ ~o.norm.haskey
-                                        /\ Seen(o.sub) => o.sub.val.t = "x" /\ ~o.sub.haskey
+\* observed and supplied values are compared after input coercion (schema defaults for what was not provided)
+ObsVal(ob, ty) == Coerce(Canon(ob.val, ty), ty)
+Extracted(o, d) == Seen(o.norm) => VEq(ObsVal(o.norm, o.c.ty), Coerce(d, o.c.ty))
+Forwarded(o, d) == Seen(o.sub) => VEq(ObsVal(o.sub, o.c.ty), Coerce(d, o.c.ty))
+TwinForwarded(o) == o.hastw /\ Seen(o.twsub) => VEq(ObsVal(o.twsub, o.c.ty), Coerce(Den(o.c.tw, o.c.ty, <<>>, TRUE), o.c.ty))
+FormsAgree(o) == o.hastw /\ Seen(o.sub) /\ Seen(o.twsub) => VEq(ObsVal(o.sub, o.c.ty), ObsVal(o.twsub, o.c.ty))
+AbsentStaysAbsent(o, d) ==
+  d.t = "x" /\ ArgDefault(o.c.ty).k = "omit" =>
+    /\ Seen(o.norm) => o.norm.val.t = "x" /\ ~o.norm.haskey
+    /\ Seen(o.sub) => o.sub.val.t = "x" /\ ~o.sub.haskey
 NullStaysNull(o, d) == d.t = "n" => /\ Seen(o.norm) => o.norm.val.t = "n"
                                     /\ Seen(o.sub) => o.sub.val.t = "n"
 \* a request that passed parsing, validation and variable extraction reaches the subgraph (generated cases are valid
